@@ -128,13 +128,33 @@ func (p *Pipe) Generate(progs []*corpus.Program, workers int) {
 func (p *Pipe) RunCLI(it *Item) { p.RunCLIEnv(it, nil) }
 
 // RunCLIEnv is RunCLI with extra environment variables.
-func (p *Pipe) RunCLIEnv(it *Item, env []string) {
+func (p *Pipe) RunCLIEnv(it *Item, env []string) { p.RunCLIHow(it, env, "") }
+
+// RunCLIHow runs the generator in another way on the same input: how = "abs" (absolute file
+// arguments, working directory = the package directory), "reversed" (file arguments in
+// reverse order), "dot" (working directory = the package directory, bare file names).
+func (p *Pipe) RunCLIHow(it *Item, env []string, how string) {
 	t0 := time.Now()
 	args := []string{}
+	dir := p.CorpusDir
 	for _, f := range it.Prog.SourceFiles() {
-		args = append(args, filepath.Join(it.Prog.Pkg, f))
+		switch how {
+		case "abs":
+			args = append(args, filepath.Join(p.CorpusDir, it.Prog.Pkg, f))
+			dir = it.Dir
+		case "dot":
+			args = append(args, f)
+			dir = it.Dir
+		default:
+			args = append(args, filepath.Join(it.Prog.Pkg, f))
+		}
 	}
-	out, err := load.Run(p.CorpusDir, false, 2*time.Minute, env, p.CLI, args...)
+	if how == "reversed" {
+		for a, b := 0, len(args)-1; a < b; a, b = a+1, b-1 {
+			args[a], args[b] = args[b], args[a]
+		}
+	}
+	out, err := load.Run(dir, false, 2*time.Minute, env, p.CLI, args...)
 	it.CLIOut, it.CLIErr = string(out), err
 	it.Elapsed = time.Since(t0)
 	it.GenSrc = map[string]string{}
